@@ -27,7 +27,9 @@ FromFdOk(r) ==
        ELSE IF r.mem_ok THEN (IF r.mem_null_value THEN ~r.got_value ELSE r.got_value /\ r.equal /\ r.val = r.mem)
        ELSE ~r.got_value /\ r.errcls = "parse"
 OpenOk(r) == ~r.got_value /\ r.errcls = "open" /\ r.ret = -1 /\ r.errcls2 = "open" /\ r.ret_null = -1 /\ r.leak = 0
-StepOfImpl(s, r) == [ok |-> CASE r.e = "tofd" -> ToFdOk(r) [] r.e = "fromfd" -> FromFdOk(r) [] r.e = "open" -> OpenOk(r) [] OTHER -> FALSE, st |-> s]
+\* a readable file read while descriptor 0 was free: the value is there and the descriptor was closed again
+Fd0Ok(r) == r.got_value /\ r.len = 3 /\ r.closed_again
+StepOfImpl(s, r) == [ok |-> CASE r.e = "fd0" -> Fd0Ok(r) [] r.e = "tofd" -> ToFdOk(r) [] r.e = "fromfd" -> FromFdOk(r) [] r.e = "open" -> OpenOk(r) [] OTHER -> FALSE, st |-> s]
 TraceLog == ndJsonDeserialize(IOEnv.TRACE)
 T == INSTANCE TraceBase WITH Log <- TraceLog, InitSt <- 0, StepOf <- StepOfImpl, ResyncAtNew <- FALSE
 Spec == T!Spec
